@@ -45,6 +45,12 @@ Definition per_type_name (c : subcmd) (src T : string) : string :=
 Definition all_in_one_name (c : subcmd) (src : string) : string :=
   trim_go src ++ "." ++ shootcmd c ++ ".go".
 
+Fixpoint nodupb (l : list string) : bool :=
+  match l with
+  | [] => true
+  | x :: l' => negb (mem x l') && nodupb l'
+  end.
+
 Inductive expect :=
 | EFail                      (* a diagnostic, non-zero exit, no file *)
 | EFiles (files : srcmap).   (* exit 0 and exactly these files, each holding exactly these types in this order *)
@@ -65,25 +71,22 @@ Definition spec (c : subcmd) (fl : cflags) (p : pkg) : expect :=
   else if fl_specified fl then
     let L := fl_types fl in
     if forallb (nameable c p) L &&
-       ((fl_file fl =? "") || forallb (fun T => decl_file p T =? fl_file fl) L)
+       ((fl_file fl =? "") || forallb (fun T => decl_file p T =? fl_file fl) L) &&
+       nodupb (map (fun T => per_type_name c (decl_file p T) T) L)        (* two types for one file: a diagnostic *)
     then EFiles (map (fun T => (per_type_name c (decl_file p T) T, [T])) L)
     else EFail
   else
     let pool := if fl_file fl =? "" then pkg_specs p else file_named p (fl_file fl) in
     let sel := map ts_name (filter (listable c p) pool) in
-    if fl_sep fl then EFiles (map (fun T => (per_type_name c (decl_file p T) T, [T])) sel)
+    if fl_sep fl then
+      (if nodupb (map (fun T => per_type_name c (decl_file p T) T) sel)
+       then EFiles (map (fun T => (per_type_name c (decl_file p T) T, [T])) sel) else EFail)
     else match sel with
          | [] => EFiles []
          | _ => EFiles [(all_in_one_name c (if fl_file fl =? "" then all_in_one_file fl p else fl_file fl), sel)]
          end.
 
 (* --------------------------------------------------------------- guards *)
-
-Fixpoint nodupb (l : list string) : bool :=
-  match l with
-  | [] => true
-  | x :: l' => negb (mem x l') && nodupb l'
-  end.
 
 (* a Go identifier over ASCII: a letter or `_`, then letters, digits, `_` *)
 Definition is_letter (c : ascii) : bool :=
@@ -106,43 +109,27 @@ Definition is_ident (s : string) : bool :=
 Definition visible_file (n : string) : bool :=
   negb (n =? "") && negb (has_prefix "." n) && negb (has_prefix "_" n).
 
-(* a skeleton of the grammar: type names (package-level and function-local) are
-   identifiers and pairwise distinct (as the Go compiler demands of the
-   package-level ones), file names are visible to the go tool and pairwise distinct *)
+(* a skeleton of the grammar: the package-level type names are identifiers and
+   pairwise distinct (as the Go compiler demands; function-local types are
+   unconstrained), file names are visible to the go tool and pairwise distinct *)
 Definition wf_pkgb (p : pkg) : bool :=
-  nodupb (map ts_name (walk_pkg p)) &&
-  forallb is_ident (map ts_name (walk_pkg p)) &&
+  nodupb (map ts_name (pkg_specs p)) &&
+  forallb is_ident (map ts_name (pkg_specs p)) &&
   nodupb (map f_name (p_files p)) &&
   forallb visible_file (map f_name (p_files p)).
 
 (* the flag record of a real command line: an explicit -type list forces one file per type *)
 Definition flags_okb (fl : cflags) : bool := implb (fl_specified fl) (fl_sep fl).
 
-Definition is_local (p : pkg) (T : string) : bool := mem T (map ts_name (local_specs p)).
-
-Definition alias_named (p : pkg) (T : string) : bool :=
-  existsb (fun t => ts_alias t && (ts_name t =? T)) (walk_pkg p).
-
 (* the selection of a listing mode, as the spec sees it *)
 Definition spec_selection (c : subcmd) (fl : cflags) (p : pkg) : list string :=
   map ts_name (filter (listable c p) (if fl_file fl =? "" then pkg_specs p else file_named p (fl_file fl))).
 
-Definition expected_names (c : subcmd) (fl : cflags) (p : pkg) : list string :=
-  match spec c fl p with
-  | EFail => []
-  | EFiles fs => map fst fs
-  end.
-
 (* input classes of the open findings (see known_findings/):
-   K_enum_missing_silent   enum -type=...,T with T neither an alias nor the type of any constant: skipped silently
    K_star_no_generate_line -type=* and no //go:generate line ends with the command line
    K_star_sep_file         -type=* -sep and a selected type declared outside the file of the //go:generate line
-   K_local_type_listed     a function-local type declaration passes the filter / is named by -type
-   K_lower_collision       two output names coincide (type names differing only in case, in one file) *)
-Definition k_enum_missing_silent (c : subcmd) (fl : cflags) (p : pkg) : bool :=
-  subcmd_eqb c CEnum && fl_specified fl &&
-  existsb (fun T => negb (nameable c p T) && negb (alias_named p T) && Nat.eqb (consts_of p T) 0) (fl_types fl).
-
+   (K_enum_missing_silent, K_local_type_listed, K_lower_collision were repaired in /repo: their
+    classes are inside the theorems now) *)
 Definition star_mode (fl : cflags) : bool := negb (fl_specified fl) && (fl_file fl =? "").
 
 Definition k_star_no_generate_line (c : subcmd) (fl : cflags) (p : pkg) : bool :=
@@ -152,16 +139,8 @@ Definition k_star_sep_file (c : subcmd) (fl : cflags) (p : pkg) : bool :=
   star_mode fl && fl_sep fl &&
   existsb (fun T => negb (decl_file p T =? all_in_one_file fl p)) (spec_selection c fl p).
 
-Definition k_local_type_listed (c : subcmd) (fl : cflags) (p : pkg) : bool :=
-  if fl_specified fl then existsb (is_local p) (fl_types fl)
-  else existsb (test_node_list c) (local_specs p).
-
-Definition k_lower_collision (c : subcmd) (fl : cflags) (p : pkg) : bool :=
-  negb (nodupb (expected_names c fl p)).
-
 Definition known_class (c : subcmd) (fl : cflags) (p : pkg) : bool :=
-  k_enum_missing_silent c fl p || k_star_no_generate_line c fl p || k_star_sep_file c fl p ||
-  k_local_type_listed c fl p || k_lower_collision c fl p.
+  k_star_no_generate_line c fl p || k_star_sep_file c fl p.
 
 (* does an outcome of the model (or an observation of the implementation) meet the expectation? *)
 Definition types_eqb (v v' : list string) : bool :=
